@@ -82,6 +82,10 @@ def run(tier):
     _c_linear(chk)
     _d_pointwise(chk)
     _service_level(chk)
+    # a conversion never writes into the polynomial of its source form (the pipeline keeps and re-serves that object)
+    from . import c09
+    from .common import Relabel
+    c09._d_restriction(Relabel(chk, {"C09.d": "C18.b-source"}))
     return chk
 
 
@@ -186,6 +190,40 @@ def _ab_registry(chk):
     chk.count("two-way pairs compared", pairs)
 
 
+def _c_inverse_pairs(chk):
+    """The pair (C, C_inv) a triangular point hands to the modal <-> local conversions is a matrix and ITS inverse: the
+    triangular service's _build_normal_form is interpreted on an exact rational instance - eigenvector matrix and scale
+    factors chosen so that C = E S^-1 is a (non-orthogonal) rational symplectic matrix, which is what the real eigenvectors
+    give - and C_inv C = I is checked exactly.  Accepts inv(C) as well as the symplectic identity -J C^T J; rejects
+    J C^T J (= -C^-1), C^T, and the like.  (The collinear pair is decided symbolically by C04.f.)"""
+    LS = "hiten.algorithms.types.services.libration"
+    mod, cls = ri.find_def(LS, "_TriangularDynamicsService")
+    R = sp.Rational
+    A = sp.Matrix([[1, 2, 0], [0, 1, R(1, 2)], [1, 0, 1]])
+    B = sp.Matrix([[1, R(1, 3), 0], [R(1, 3), 2, -1], [0, -1, R(1, 2)]])
+    L = sp.Matrix([[0, 1, 2], [1, R(-1, 2), 0], [2, 0, 3]])
+    Z, I3 = sp.zeros(3), sp.eye(3)
+    Csym = sp.Matrix(sp.BlockMatrix([[A, Z], [Z, A.inv().T]])) * sp.Matrix(sp.BlockMatrix([[I3, B], [Z, I3]])) * sp.Matrix(sp.BlockMatrix([[I3, Z], [L, I3]]))
+    J = sp.Matrix(sp.BlockMatrix([[Z, I3], [-I3, Z]]))
+    assert Csym.T * J * Csym == J
+    sc = [R(3, 2), R(2), R(1)]
+    E = Csym * sp.diag(*(sc + sc))
+    svc = SymObj(ClassRef(mod, cls), {"_get_eigvs": lambda: to_obj_array(E.T.tolist()), "scale_factor": lambda i: sc[int(i)]}, "triangular service")
+    ip = Interp()
+    try:
+        C, Cinv = ip.apply(ip.getattr(svc, "_build_normal_form"), [], {})
+    except OutsideFragment as exc:
+        raise AnalysisError(f"_TriangularDynamicsService._build_normal_form outside fragment: {exc}")
+    chk.count("functions partially evaluated")
+    Cm, Ci = sp.Matrix(to_obj_array(C).tolist()), sp.Matrix(to_obj_array(Cinv).tolist())
+    prod = (Ci * Cm).applyfunc(sp.nsimplify)
+    chk.check(Cm.applyfunc(sp.nsimplify) == Csym, "C18.c", f"{LS}::_TriangularDynamicsService._build_normal_form[C]",
+              "C is not (eigenvectors as columns) x diag(1/s, 1/s)", sample="C = eigvs^T-columns scaled by 1/s_i on q_i and p_i")
+    chk.check(prod == sp.eye(6), "C18.c", f"{LS}::_TriangularDynamicsService._build_normal_form[C_inv]",
+              f"C_inv C is not the identity on an exact symplectic instance (diagonal {list(prod.diagonal())}): modal -> local -> modal does not return the coordinates "
+              f"(e.g. J C^T J = -C^-1 flips every sign)", sample="C_inv @ C == I (exact rational symplectic instance)")
+
+
 def _c_linear(chk):
     ip = Interp()
     R = Radicals()
@@ -266,6 +304,7 @@ def _c_linear(chk):
     out = to_obj_array(ipx.call_function(TR, "_coordlocal2realmodal", [point, coords]))
     chk.check(all(sp.expand(S(out[i]) - sum(Cis[i, j] * coords[j] for j in range(6))) == 0 for i in range(6)), "C18.c", f"{TR}::_coordlocal2realmodal",
               "local->modal coordinates are not C_inv·local", sample="modal = C_inv @ local")
+    _c_inverse_pairs(chk)
     # _clean_coordinates is the identity away from the tolerance
     zc = to_obj_array([sp.Symbol(f"r{i}", real=True) + sp.I * sp.Symbol(f"i{i}", real=True) for i in range(2)])
     out = to_obj_array(Interp(decide=lambda c: False).call_function(PC, "_clean_coordinates", [zc, sp.Rational(1, 10 ** 30)]))
